@@ -4,6 +4,7 @@ K: move_mol_atom / find_atom_random_displ of /repo against the float instance of
 S: the property text evaluated on the implementation (written from properties.jsonl, not from the model).
 """
 import itertools
+import signal
 
 import numpy as np
 
@@ -26,6 +27,34 @@ RULE = ("move cases: every labelled tree on 2..6 atoms (7 in the thorough tier) 
         "(dyadic) geometries, negative sigma scale, atoms without neighbours.")
 
 EXC = {IndexError: "EIndex", KeyError: "EKey", ValueError: "EValue"}
+CALL_LIMIT_S = 10      # a call normally takes well under a millisecond per atom
+MAX_HANGS = 3
+MAX_REPLAYS = 20     # failing inputs beyond this are counted, not written
+
+
+class Hang(Exception):
+    pass
+
+
+class time_limit:
+    """the queue loop of move_mol_atom has no other bound than its visited set: a call that does not return within
+    CALL_LIMIT_S is reported as non-termination instead of hanging the check"""
+    hangs = 0
+
+    def __enter__(self):
+        if time_limit.hangs >= MAX_HANGS:
+            raise RuntimeError("the implementation did not terminate on %d inputs (see the replays); giving up" % MAX_HANGS)
+
+        def on_alarm(signum, frame):
+            time_limit.hangs += 1
+            raise Hang()
+        self.old = signal.signal(signal.SIGALRM, on_alarm)
+        signal.alarm(CALL_LIMIT_S)
+
+    def __exit__(self, *a):
+        signal.alarm(0)
+        signal.signal(signal.SIGALRM, self.old)
+        return False
 
 
 # ------------------------------------------------------------------ generators
@@ -193,8 +222,10 @@ def impl_move(pos, tj, k, d):
     saved = a.copy()
     tb = table_dict(tj)
     try:
-        with np.errstate(all="ignore"):
+        with np.errstate(all="ignore"), time_limit():
             out = move_mol_atom(a, tb, k, np.array(d, dtype=float))
+    except Hang:
+        return None, "EFuel", True
     except tuple(EXC) as e:
         for cls, name in EXC.items():
             if isinstance(e, cls):
@@ -308,6 +339,8 @@ def oracle_move(case):
     """failed clauses of the property text on one well-formed input (connected graph, generic coordinates)"""
     pos, tj, k, d = case["pos"], case["table"], case["k"], case["d"]
     out, err, unchanged = impl_move(pos, tj, k, d)
+    if err == "EFuel":
+        return ["no result within %d s (the propagation loop does not terminate)" % CALL_LIMIT_S]
     if err is not None:
         return ["raised %s on a well-formed input" % err]
     bad = []
@@ -370,6 +403,8 @@ def oracle_displ(case):
 def run_oracle(ctx, case):
     bad = oracle_move(case) if case["kind"] == "move" else oracle_displ(case)
     if bad:
+        ctx.cov["S"]["failing_inputs"] = ctx.cov["S"].get("failing_inputs", 0) + 1
+    if bad and len(ctx.violations) < MAX_REPLAYS:
         ctx.violation(("move_mol_atom: " if case["kind"] == "move" else "find_atom_random_displ: ") + "; ".join(bad),
                       case, key=case["kind"])
     return bad
@@ -425,11 +460,12 @@ def displ_cases(ctx, rs, count):
         kind = ["generic", "generic", "generic", "generic", "collinear", "parallel_u", "no_neighbour", "negative_sigma",
                 "missing_key", "nbr_out_of_range"][rs.randint(0, 10)]
         # a star centre gives the >= 3 neighbour branch often enough
-        bonds = molgen.random_tree(rs, n) if rs.randint(0, 2) else [(0, j) for j in range(1, n)]
+        star = not rs.randint(0, 2)
+        bonds = [(0, j) for j in range(1, n)] if star else molgen.random_tree(rs, n)
         scale = 10 ** rs.uniform(-2, 2)
         pos = gen_geometry(rs, n, bonds, "walk" if rs.randint(0, 2) else "box", scale)
         table = gen_table(rs, n, bonds, pos, "agree", scale, shuffle=bool(rs.randint(0, 2)))
-        k = int(rs.randint(0, n))
+        k = 0 if star and rs.randint(0, 3) else int(rs.randint(0, n))
         case = {"kind": "displ", "gen": kind, "n": n, "sigma_scale": float(rs.uniform(0, 2)), "seed": int(rs.randint(0, 2 ** 31)),
                 "k": k}
         if kind in ("collinear", "parallel_u"):
